@@ -530,7 +530,10 @@ fn generate(rng: &mut Rng) -> Scenario {
         }
         let in_callee = engine != Engine::Cl && rng.chance(1, 5);
         let helper_first = rng.chance(1, 5);
-        let loop_step = if loop_n > 1 && adds.len() == 1 && !adds[0].src_is_base && aligned(&adds[0]) && rng.chance(1, 2) { rng.range(1, 1 << 20) as u32 } else { 0 };
+        let mut loop_step = if loop_n > 1 && adds.len() == 1 && !adds[0].src_is_base && aligned(&adds[0]) && rng.chance(1, 2) { rng.range(1, 1 << 20) as u32 } else { 0 };
+        if loop_step > 0 && (0..loop_n as u64).any(|k| adds[0].addend.wrapping_add(k * loop_step as u64) & mask(adds[0].width) == 0) {
+            loop_step = 0; // every add must change its word (a compare-exchange that changes nothing reads as a failed one)
+        }
         let stack_check = if rng.chance(1, 4) {
             let width = if rng.chance(1, 2) { 8 } else { 4 };
             // r8 carries the result to the end: keep it out of the adds
